@@ -16,6 +16,7 @@ type State struct {
 	Allocs map[*ssa.Alloc]Val
 	Heap   map[string]*Term
 	Ghost  map[string]*Term
+	Epoch  string // non-empty after a havoc of the whole heap: untouched keys read as epoch symbols, not as the initial heap
 }
 
 func newState() *State {
@@ -23,7 +24,7 @@ func newState() *State {
 }
 
 func (s *State) clone() *State {
-	n := &State{Reach: s.Reach, Regs: make(map[ssa.Value]Val, len(s.Regs)), Allocs: make(map[*ssa.Alloc]Val, len(s.Allocs)), Heap: make(map[string]*Term, len(s.Heap)), Ghost: make(map[string]*Term, len(s.Ghost))}
+	n := &State{Reach: s.Reach, Epoch: s.Epoch, Regs: make(map[ssa.Value]Val, len(s.Regs)), Allocs: make(map[*ssa.Alloc]Val, len(s.Allocs)), Heap: make(map[string]*Term, len(s.Heap)), Ghost: make(map[string]*Term, len(s.Ghost))}
 	for k, v := range s.Regs {
 		n.Regs[k] = v
 	}
@@ -59,6 +60,10 @@ func (s *State) heapGet(key string, srt *Sort) *Term {
 	if t, ok := s.Heap[key]; ok {
 		return t
 	}
+	if s.Epoch != "" {
+		initialHeap(key, srt)
+		return epochHeap(s.Epoch, key, srt)
+	}
 	return initialHeap(key, srt)
 }
 
@@ -82,8 +87,15 @@ type edgeIn struct {
 }
 
 func valEq(a, b Val) bool {
-	if len(a.C) != len(b.C) || a.Ptr != b.Ptr || a.Clo != b.Clo || len(a.Tuple) != len(b.Tuple) {
+	if len(a.C) != len(b.C) || a.Clo != b.Clo || len(a.Tuple) != len(b.Tuple) {
 		return false
+	}
+	if a.Ptr != b.Ptr {
+		// the address of the same local, taken in different unrolled iterations
+		if a.Ptr == nil || b.Ptr == nil || a.Ptr.Kind != PLocal || b.Ptr.Kind != PLocal ||
+			a.Ptr.Alloc != b.Ptr.Alloc || len(a.Ptr.Path) != 0 || len(b.Ptr.Path) != 0 {
+			return false
+		}
 	}
 	for i := range a.C {
 		if a.C[i] != b.C[i] {
@@ -156,6 +168,12 @@ func mergeStates(ins []edgeIn) (*State, error) {
 		conds[i] = e.cond
 	}
 	out.Reach = Or(conds...)
+	out.Epoch = live[0].st.Epoch
+	for _, e := range live[1:] {
+		if e.st.Epoch != out.Epoch {
+			out.Epoch = newEpoch() // keys untouched on every path: unknown after the join (sound over-approximation)
+		}
+	}
 	// registers: intersection
 	for k, v0 := range live[0].st.Regs {
 		vals := []Val{v0}
